@@ -3,7 +3,7 @@ import ast
 
 from ..core import call_name, dotted, src
 from ..lib import Rules, need, calls_in
-from ..template import contains, template_func, effects
+from ..template import contains, template_func, effects, HelperInliner
 from . import dec_common as dc
 from . import refcheck
 
@@ -64,9 +64,10 @@ def run(repo, chk):
 def call_effects(repo, chk):
     fi = repo.func(dc.DEC + '.__call__')
     tmpl = template_func(dc.ref_source(), '__call__')
-    have = effects(fi)
+    helper = HelperInliner(fi)
+    have = effects(fi, helper=helper)
     keys = [e.key for e in have]
-    for e in effects(tmpl):
+    for e in effects(tmpl, helper=helper):
         if is_lm(e) and e.kind != 'return':
             continue
         ok = e.key in keys
